@@ -617,6 +617,8 @@ func main() {
 			k4(r, i, o)
 		} else if i%16 == 5 {
 			k3(r, i, o)
+		} else if i%16 == 9 || i%16 == 1 {
+			k5(r, i, o)
 		} else if *k2n > 0 && i%*k2n == *k2n-1 {
 			k2(r, i, o)
 		} else {
